@@ -267,9 +267,10 @@ class ConcreteWorld:
         self.checked = []
         self.slack = slack
 
-    def _val(self, name):
+    def _val(self, name, default=0.37):
         if name not in self.values:
-            raise HarnessReject('no value for input %s' % name)
+            # inputs created after the failing obligation are absent from the model: any value will do
+            return default
         v = self.values[name]
         if isinstance(v, str):
             if '/' in v:
